@@ -159,6 +159,55 @@ def r_solver(ctx, model):
     ctx.floor("shear keys folded", len(SHEAR_KEYS), 15)
 
 
+def r_siblings_probe(ctx, model):
+    """the routine that lists the components a strain needs and the routine that reads them select the same entries of the strain -
+    also for entries of round-off size (an eigenvalue that should be 0 comes out of eigh as +-1e-17), small entries on either side
+    of the tolerance, and exact zeros: folded on numeric probe matrices"""
+    R = sp.Rational
+    tiny, below, above = R(-607, 10 ** 20), R(3, 10 ** 9), R(1, 10 ** 7)
+    probes = {
+        "diagonal with a round-off zero": [[R(1), 0, 0], [0, tiny, 0], [0, 0, R(-1)]],
+        "round-off off-diagonal entries": [[R(1), tiny, 0], [tiny, R(-1, 2), -tiny], [0, -tiny, R(-1, 2)]],
+        "entries just below / above 1e-8": [[R(1), below, 0], [below, R(-1), above], [0, above, 0]],
+        "exact shear strain": [[0, R(1), 0], [R(1), 0, 0], [0, 0, 0]],
+    }
+    mod = model.mods[SHMOD]
+    f_keys = model.func(f"{SHMOD}:get_fictitious_strain_energy_keys")
+    f_en = model.func(f"{SHMOD}:calculate_fictitious_strain_energy")
+    w = model.where(f"{SHMOD}:calculate_fictitious_strain_energy", f_en)
+    intr = dict(LINALG)
+    intr = {k: (lambda f: (lambda ev, a, kw: f(ev, a, kw)))(f) for k, f in intr.items()}
+    intr["cij.c_"] = c_intrinsic
+    bad = []
+    for label, rows in probes.items():
+        m = ArrV(0, (3, 3), cells={(i, j): sp.sympify(rows[i][j]) for i in range(3) for j in range(3)})
+        for target in (None, KeyObj("c44")):
+            ev = Ev(model, {("global", "cij.util:c_"): LibV("cij.c_")}, intr, ctx=ctx)
+            asked = ev.call_def(f_keys, mod, f"{SHMOD}:get_fictitious_strain_energy_keys", [m, target], {})
+            read = []
+            resolver = LoggingResolver(read)
+            ev.call_def(f_en, mod, f"{SHMOD}:calculate_fictitious_strain_energy", [m, resolver, target], {})
+            a_, r_ = sorted(k.name for k in asked.items), sorted(read)
+            if a_ != r_:
+                bad.append(f"{label}{' (target c44)' if target else ''}: asked for {len(a_)} components, reads {len(r_)}"
+                           f" (only asked: {sorted(set(a_) - set(r_))[:3]}, only read: {sorted(set(r_) - set(a_))[:3]})")
+    ctx.check(not bad, "components listed = components read on 4 probe strains with round-off-sized and near-tolerance entries", w,
+              expected="the same selection of strain entries in get_fictitious_strain_energy_keys and calculate_fictitious_strain_energy",
+              found="; ".join(bad[:3]) or "the same components on every probe", explanation="the two sibling routines disagree on which entries of the strain count as "
+              "non-zero: a round-off eigenvalue makes the solver read a component that was never requested (KeyError) or skip one that was supplied", key="siblings.probe")
+
+
+class LoggingResolver:
+    """resolve_elastic_modulus stand-in: records the key it is asked for"""
+
+    def __init__(self, log):
+        self.log = log
+
+    def sym_call(self, ev, args, kwargs, n, mod):
+        self.log.append(args[0].name)
+        return sp.Symbol("C_" + args[0].name[1:], real=True)
+
+
 def r_adiabatic(ctx, model):
     ev, obj, e = make(ctx, model, "c44")
     obj.attrs["value_isothermal"] = sp.Symbol("ISO44")
@@ -194,5 +243,6 @@ def r_multiplicity(ctx, model):
 RULES = [
     ("R03.7", "key.multiplicity / key.standard of voigt.py for the 15 shear keys", r_multiplicity),
     ("R03.1-8", "15 shear keys folded on the symbolic tensor: strain, frame, requests, exactness, sibling agreement, multiplicity, rotated strains", r_solver),
+    ("R03.10", "sibling agreement on probe strains: the key routine and the energy routine select the same strain entries (round-off zeros, near-tolerance entries)", r_siblings_probe),
     ("R03.9", "value_isothermal is the solved component; value_adiabatic the same attribute", r_adiabatic),
 ]
